@@ -4,7 +4,7 @@ from trie.exceptions import NodeOverrideError
 
 from ..bgen import BHistory, make_pool, make_values, probe_keys
 from ..bworld import BWorld, conflicts
-from ..core import Violation, deep, hx, unhx
+from ..core import Blob, Violation, deep, fresh, hx, unhx
 from ..models.binref import BLANK_HASH, RefBin, bits_of
 
 ID = "C12"
@@ -37,6 +37,7 @@ PROBES = [f"kv-split-top{a}-old{b}-new{c}" for a in (0, 1) for b in (0, 1) for c
     "reopened-at-earlier-root",
     "value-is-a-node-hash",
     "value-is-a-node-body",
+    "rolled-back-by-root-hash-assignment",
 ]
 FAULTS = ["write-fail-applied", "write-fail-not-applied", "withhold-node", "crash-reopen"]
 COMPONENTS = {
@@ -130,6 +131,8 @@ class World(BWorld):
     # -- commands ------------------------------------------------------------------
     def op_set(self, cmd):
         k, v = unhx(cmd["k"]), unhx(cmd["v"])
+        if cmd.get("sub"):
+            k, v = Blob(k), Blob(v)
         if "vh" in cmd:
             # the value is the hash of some node in this very database (an older root,
             # another trie's root): what a state trie storing storage roots does
@@ -159,7 +162,7 @@ class World(BWorld):
             return out
         if conflict:
             self.viol("override-accepted", f"{what} was accepted although a stored key is a proper prefix or extension of the key")
-        self.model[k] = v
+        self.model[bytes(k)] = bytes(v)
         self._ref = None
         return "ok"
 
@@ -262,18 +265,23 @@ class World(BWorld):
             return "fault:" + type(res).__name__
         if api in ("exists", "in"):
             want = want is not None
-        if res != want or type(res) is not type(want):
+        if res != want or isinstance(res, bool) != isinstance(want, bool) or (res is not None and not isinstance(res, (bool, bytes))):
             self.viol("lookup-mismatch", f"{api}({k.hex()}) returned {res!r}, the model holds {want!r}")
         return "hit" if res else "miss"
 
     def op_reopen(self, cmd):
         j = cmd.get("root", -1)
         if j == -1:
-            self.trie = BinaryTrie(self.db, self.trie.root_hash)
+            self.trie = BinaryTrie(self.db, fresh(self.trie.root_hash))
             self.st.fault("crash-reopen")
             return "ok"
         root = self.order[j % len(self.order)]
-        self.trie = BinaryTrie(self.db, root)
+        if cmd.get("assign"):
+            # the live handle is rolled back by assigning its public root_hash attribute
+            self.trie.root_hash = fresh(root)
+            self.st.probe("rolled-back-by-root-hash-assignment")
+        else:
+            self.trie = BinaryTrie(self.db, fresh(root))
         self.model = dict(self.registry[root])
         self._ref = None
         self.changed = True
@@ -293,7 +301,7 @@ class World(BWorld):
 
     def finish(self):
         for j, root in enumerate(self.order):
-            t = BinaryTrie(self.db, root)
+            t = BinaryTrie(self.db, fresh(root))
             contents = self.registry[root]
             keys = sorted(contents) + self.probes[(j * 3) % max(1, len(self.probes)) :][:4]
             for k in keys:
